@@ -501,7 +501,7 @@ type adapterSpec struct {
 
 func ruleR19(c *Ctx) *RuleResult {
 	p := c.p
-	r := &RuleResult{Rule: "R19", Title: "ADAPT: stack/queue adapters use consistent ends; the ring wraps and indexes consistently", Floor: 4 + 4}
+	r := &RuleResult{Rule: "R19", Title: "ADAPT: stack/queue adapters use consistent ends; the ring wraps and indexes consistently", Floor: 4 + 5}
 	clA := "R19a each stack pushes and pops at the same end of its list, each queue enqueues at the tail and dequeues at the head; Peek and Pop/Dequeue read the same index; Pop/Dequeue removes the index it read"
 	for _, sp := range []adapterSpec{
 		{"stacks/arraystack.Stack", "Push", "Pop", false}, {"stacks/linkedliststack.Stack", "Push", "Pop", false},
@@ -601,6 +601,7 @@ func ruleR19(c *Ctx) *RuleResult {
 		}
 	}
 	ruleR19b(c, r)
+	ruleR19bSize(c, r)
 	return r
 }
 
@@ -810,4 +811,132 @@ func ruleR19b(c *Ctx, r *RuleResult) {
 		}
 	}
 	put("R19b-dequeue", clDeq, badD, "empty ⇒ no effect, (zero,false); else (values[start], true)")
+}
+
+// ---- R19b-size: the ring's recomputed size is never negative ----
+
+type linForm struct {
+	coef map[string]int // "start", "end", "maxSize"
+	k    int
+}
+
+func ringAtom(t *Term) string {
+	if t.Op == "load" && len(t.Args) == 1 && t.Args[0].Op == "fa" && t.Args[0].Args[0].String() == "p:0" {
+		switch t.Args[0].Leaf {
+		case "start", "end", "maxSize":
+			return t.Args[0].Leaf
+		}
+	}
+	return ""
+}
+
+func linearOf(t *Term) (linForm, bool) {
+	if v, ok := t.constInt(); ok {
+		return linForm{coef: map[string]int{}, k: int(v)}, true
+	}
+	if a := ringAtom(t); a != "" {
+		return linForm{coef: map[string]int{a: 1}}, true
+	}
+	if (t.Op == "+" || t.Op == "-") && len(t.Args) == 2 {
+		x, ok1 := linearOf(t.Args[0])
+		y, ok2 := linearOf(t.Args[1])
+		if !ok1 || !ok2 {
+			return linForm{}, false
+		}
+		sign := 1
+		if t.Op == "-" {
+			sign = -1
+		}
+		out := linForm{coef: map[string]int{}, k: x.k + sign*y.k}
+		for a, c := range x.coef {
+			out.coef[a] += c
+		}
+		for a, c := range y.coef {
+			out.coef[a] += sign * c
+		}
+		return out, true
+	}
+	return linForm{}, false
+}
+
+// provablyNonNeg: under 0 <= start,end <= maxSize (ring invariant, R19b-wrap) and the path's comparisons of start and end.
+func provablyNonNeg(t *Term, g *GC) bool {
+	if t.Op == "%" && len(t.Args) == 2 {
+		// Go's % takes the sign of the dividend
+		return provablyNonNeg(t.Args[0], g)
+	}
+	l, ok := linearOf(t)
+	if !ok {
+		return false
+	}
+	le := func(x, y string) bool { // path knows x <= y
+		for _, a := range g.Guards {
+			if (a.Op == "<" || a.Op == "<=" || a.Op == "==") && len(a.Args) == 2 {
+				ax, ay := ringAtom(a.Args[0]), ringAtom(a.Args[1])
+				if ax == x && ay == y || (a.Op == "==" && ax == y && ay == x) {
+					return true
+				}
+			}
+		}
+		return false
+	}
+	a, b, c := l.coef["maxSize"], l.coef["start"], l.coef["end"]
+	for b < 0 {
+		switch {
+		case a > 0:
+			a--
+		case c > 0 && le("start", "end"):
+			c--
+		default:
+			return false
+		}
+		b++
+	}
+	for c < 0 {
+		switch {
+		case a > 0:
+			a--
+		case b > 0 && le("end", "start"):
+			b--
+		default:
+			return false
+		}
+		c++
+	}
+	return a >= 0 && b >= 0 && c >= 0 && l.k >= 0
+}
+
+func ruleR19bSize(c *Ctx, r *RuleResult) {
+	p := c.p
+	tk := "queues/circularbuffer.Queue"
+	clause := "R19b-size the size recomputed from (start, end, full) is non-negative on every path, given 0 <= start,end <= capacity: a difference of the indices is only taken in the direction the path has established (Go's % keeps the sign of the dividend)"
+	ct := p.T.ContainerByKey(tk)
+	if ct == nil {
+		return
+	}
+	fn := methodsOf(p, ct)["calculateSize"]
+	if fn == nil {
+		// no recomputation helper: judged by R12b/c
+		r.add(Obligation{Key: "R19b-size:" + tk, Rule: "R19b-size", Clause: clause, Pos: "-", Status: Discharged, Facts: "no calculateSize helper (the size is maintained incrementally: R12b/c)"})
+		return
+	}
+	var bad []string
+	n := 0
+	for _, g := range c.GC(fn).GCs {
+		if g.Exit.Op != "return" || len(g.Exit.Args) != 1 {
+			continue
+		}
+		n++
+		if !provablyNonNeg(g.Exit.Args[0], g) {
+			bad = append(bad, fmt.Sprintf("returns %s on the path %s — not provably non-negative", trunc(noEpoch(g.Exit.Args[0]), 160), trunc(guardsString(g), 200)))
+		}
+	}
+	if n == 0 {
+		bad = append(bad, "no return path found")
+	}
+	if len(bad) > 0 {
+		r.add(Obligation{Key: "R19b-size:" + tk, Rule: "R19b-size", Clause: clause, Pos: p.FuncPos(fn), Status: Violated, Facts: strings.Join(dedup(bad), "\n")})
+	} else {
+		r.add(Obligation{Key: "R19b-size:" + tk, Rule: "R19b-size", Clause: clause, Pos: p.FuncPos(fn), Status: Discharged, Facts: fmt.Sprintf("%d return paths, each provably >= 0", n)})
+	}
 }
